@@ -26,6 +26,7 @@ import (
 	"github.com/ethereum/go-ethereum/rlp"
 	"github.com/ethereum/go-ethereum/trie"
 	"github.com/ethereum/go-ethereum/triedb"
+	"github.com/ethereum/go-ethereum/triedb/database"
 	"github.com/ethereum/go-ethereum/triedb/pathdb"
 	"github.com/holiman/uint256"
 )
@@ -36,6 +37,20 @@ import (
 type Shape struct {
 	NAcc, NSlot int
 	Counter     bool
+	Ballast     int // constant accounts present in every state (keep the account trie from degenerating)
+}
+
+// BallastAddr is the address of the i-th ballast account.
+func (s Shape) BallastAddr(i int) common.Address {
+	var a common.Address
+	a[0], a[1], a[19] = 0xba, byte(i*29+1), byte(i)
+	return a
+}
+
+func writeBallast(s Shape, st *state.StateDB) {
+	for i := 0; i < s.Ballast; i++ {
+		st.SetBalance(s.BallastAddr(i), uint256.NewInt(7), tracing.BalanceChangeUnspecified)
+	}
 }
 
 func (s Shape) NK() int {
@@ -292,11 +307,12 @@ func (r *Registry) Info(w World) *WorldInfo {
 	sdb := state.NewDatabase(tdb, state.NewCodeDB(disk))
 	root := types.EmptyRootHash
 	empty := make(World, len(w))
-	if !w.Eq(empty) {
+	if !w.Eq(empty) || r.Shape.Ballast > 0 {
 		st, err := state.New(types.EmptyRootHash, sdb)
 		if err != nil {
 			panic(fmt.Sprintf("harness: fresh state: %v", err))
 		}
+		writeBallast(r.Shape, st)
 		writeWorld(r.Shape, st, empty, w, nil)
 		root, err = st.Commit(rules(r.Cancun), 1)
 		if err != nil {
@@ -395,8 +411,41 @@ func (e *Env) PathConfig() *pathdb.Config {
 	return c
 }
 
+// seed writes the ballast-only initial state straight into an empty key-value store (flat
+// state + trie nodes, persistent id 0, no histories, no id table): the database under test
+// then starts from a non-empty state with id 0, as a node does from its genesis state.
+func (e *Env) seed() {
+	if e.Shape.Ballast == 0 || e.KV.Database.Len() != 0 {
+		return
+	}
+	disk := rawdb.NewDatabase(e.KV)
+	tdb := triedb.NewDatabase(disk, &triedb.Config{PathDB: &pathdb.Config{NoAsyncFlush: true, NoAsyncGeneration: true, TrienodeHistory: -1}})
+	sdb := state.NewDatabase(tdb, state.NewCodeDB(disk))
+	st, err := state.New(types.EmptyRootHash, sdb)
+	if err != nil {
+		panic(fmt.Sprintf("harness: seed: %v", err))
+	}
+	writeBallast(e.Shape, st)
+	root, err := st.Commit(rules(e.Cfg.Cancun), 0)
+	if err != nil {
+		panic(fmt.Sprintf("harness: seed commit: %v", err))
+	}
+	if err := tdb.Commit(root, false); err != nil {
+		panic(fmt.Sprintf("harness: seed flush: %v", err))
+	}
+	tdb.Close()
+	rawdb.WritePersistentStateID(e.KV.Database, 0)
+	e.KV.Database.Delete([]byte("TrieJournal"))
+	for k := range e.KV.Snapshot() {
+		if len(k) == 1+common.HashLength && k[0] == 'L' {
+			e.KV.Database.Delete([]byte(k))
+		}
+	}
+}
+
 func (e *Env) open(hints ...common.Hash) error {
 	pathdb.VerifHistSetMaxDiffLayers(e.Cfg.MaxDiff)
+	e.seed()
 	disk, err := rawdb.Open(e.KV, rawdb.OpenOptions{Ancient: e.Dir})
 	if err != nil {
 		return err
@@ -585,8 +634,11 @@ func (e *Env) ReadFlat(root common.Hash) (World, error) {
 
 // ReadTrie reads every key through the account/storage tries of the given root and walks
 // all their nodes (every node must resolve with the right hash).
-func (e *Env) ReadTrie(root common.Hash) (World, error) {
-	tr, err := trie.NewStateTrie(trie.StateTrieID(root), e.TDB)
+func (e *Env) ReadTrie(root common.Hash) (World, error) { return e.ReadTrieFrom(e.TDB, root) }
+
+// ReadTrieFrom is ReadTrie over an arbitrary node database (e.g. the historic node reader).
+func (e *Env) ReadTrieFrom(ndb database.NodeDatabase, root common.Hash) (World, error) {
+	tr, err := trie.NewStateTrie(trie.StateTrieID(root), ndb)
 	if err != nil {
 		return nil, err
 	}
@@ -608,7 +660,7 @@ func (e *Env) ReadTrie(root common.Hash) (World, error) {
 		} else {
 			w[k] = int(acc.Balance.Uint64())
 		}
-		stt, err := trie.NewStateTrie(trie.StorageTrieID(root, crypto.Keccak256Hash(addr.Bytes()), acc.Root), e.TDB)
+		stt, err := trie.NewStateTrie(trie.StorageTrieID(root, crypto.Keccak256Hash(addr.Bytes()), acc.Root), ndb)
 		if err != nil {
 			return nil, err
 		}
@@ -650,7 +702,7 @@ func (e *Env) ReadTrie(root common.Hash) (World, error) {
 			n++
 		}
 	}
-	if leaves != n {
+	if leaves != n+e.Shape.Ballast {
 		return nil, fmt.Errorf("account trie of %x has %d leaves, %d known accounts exist", root, leaves, n)
 	}
 	return w, nil
